@@ -19,4 +19,15 @@ def binRequests (e : Endian) (bytes : Bytes) : List Nat :=
   let labelCount := e.dec (slice bytes 12 4)
   if dataSize + pointerCount * 4 + labelCount * 8 + 0x20 > bytes.length then [] else [dataSize]
 
+/-- Every other entry point of the family starts with `BinArchive::from_bytes` (text archives in
+either encoding, arc, aset, asset binaries) and makes no further explicitly sized request:
+strings, records and file bodies are produced by `push`/`to_vec` of ranges that were validated
+against the data region first (after fixes D8, D19).  `fe9_arc::parse` makes none at all
+(`raw.get(start..end)` is checked before the copy). -/
+def requests (entry : String) (bytes : Bytes) : List Nat :=
+  match entry with
+  | "binLE" | "textSjisLE" | "textUniLE" | "arc" | "aset" | "asset" => binRequests .little bytes
+  | "binBE" | "textSjisBE" | "textUniBE" => binRequests .big bytes
+  | _ => []
+
 end Mila.Parsers
